@@ -31,6 +31,22 @@ Theorem C14_recover_continues : forall st f f',
 Proof. exact unset_then_recover. Qed.
 Print Assumptions C14_recover_continues.
 
+(* counter recovery after k-fold unsetID / recoverID of one (nested) channel: the counters, the channel stack and the channel
+   are unchanged, and the recovery table holds the CURRENT counters (the entry is refreshed by every unsetID, not only the
+   first); with arbitrary traffic between the visits the next recoverID continues where the party left *)
+Theorem C14_recover_k_fold : forall k st f i s d r, stack st = (i, s, d) :: r ->
+  let st' := leave_enter_k k st f in
+  cur st' = cur st /\ sq st' = sq st /\ dls st' = dls st /\ stack st' = stack st /\
+  (k <> O -> recov st' (cur st) = Some (sq st, dls st)).
+Proof. exact recover_k_fold. Qed.
+Print Assumptions C14_recover_k_fold.
+
+Theorem C14_recover_after_traffic : forall st f1 f2 f3 f4 (u : pst -> pst),
+  let st1 := leave_enter st f1 f2 in let st2 := u st1 in let st3 := leave_enter st2 f3 f4 in
+  cur st3 = cur st2 /\ sq st3 = sq st2 /\ dls st3 = dls st2.
+Proof. exact recover_after_traffic. Qed.
+Print Assumptions C14_recover_after_traffic.
+
 Theorem C14_nested_channel_returns : forall st id f f',
   let st' := unset_id (set_id st id f) f' in
   cur st' = cur st /\ sq st' = sq st /\ dls st' = dls st /\ stack st' = stack st /\ fifo st' = f'.
@@ -129,12 +145,50 @@ Theorem C14_agreement_deliverfrom : forall n t skip H toolong byz, 3 * t < n -> 
 Proof. exact agreement_deliverfrom. Qed.
 Print Assumptions C14_agreement_deliverfrom.
 
+(* ---- the delivery clause: validity and totality at quiescence -------------------------------------------------
+   Scope (exactly): all n > 3t (t >= 0), every Byzantine set of <= t parties, every schedule WITHOUT channel switches
+   (forallb noswitch: every party stays on the FIFO root channel the constructor sets up; Broadcast / Deliver / DeliverFrom in
+   any interleaving, Byzantine injection, reordering, duplication), fifo_skip = 0.
+   quiescent = handed_over (every r-send/echo/ready/request/answer addressed to an honest party has been processed by it:
+   its first-time filter is set) /\ buffers_drained (no honest party has a deliverable entry left in its deliver buffer).
+   The proofs go r-send -> echo quorum -> ready quorum -> digest fixed -> delivery attempt (directly, or after fetching the
+   payload by r-request / r-answer from one of the parties 0..2t that echoed) -> draining of the deliver buffer in sequence
+   order (induction on s). *)
+Theorem C14_validity_at_quiescence : forall n t skip H toolong byz, 3 * t < n -> 0 <= t ->
+  forall B, Z.of_nat (length B) <= t -> (forall l, byz l = true -> In l B) ->
+  (forall m, H m <> 0) -> (forall tg x, toolong tg (H x) = false) -> skip = 0 -> (forall a b, H a = H b -> a = b) ->
+  forall es, forallb noswitch es = true ->
+    handed_over n byz (grun n t skip H toolong byz es) -> buffers_drained n byz (grun n t skip H toolong byz es) ->
+    forall j dst s v, honest n byz j = true -> In (j, dst, Msg 0 j s 1 v) (gsent (grun n t skip H toolong byz es)) ->
+    forall q, honest n byz q = true -> In (q, (0, j, s), v) (glog (grun n t skip H toolong byz es)).
+Proof. exact validity_at_quiescence. Qed.
+Print Assumptions C14_validity_at_quiescence.
+
+Theorem C14_totality_at_quiescence : forall n t skip H toolong byz, 3 * t < n -> 0 <= t ->
+  forall B, Z.of_nat (length B) <= t -> (forall l, byz l = true -> In l B) ->
+  (forall m, H m <> 0) -> (forall tg x, toolong tg (H x) = false) -> skip = 0 -> (forall a b, H a = H b -> a = b) ->
+  forall es, forallb noswitch es = true ->
+    handed_over n byz (grun n t skip H toolong byz es) -> buffers_drained n byz (grun n t skip H toolong byz es) ->
+    forall p tg v, In (p, tg, v) (glog (grun n t skip H toolong byz es)) ->
+    forall q, honest n byz q = true -> In (q, tg, v) (glog (grun n t skip H toolong byz es)).
+Proof. exact totality_at_quiescence. Qed.
+Print Assumptions C14_totality_at_quiescence.
+
+(* ... and WITH channel switches the delivery clause is FALSE for the code as it is (finding F10): n = 4, t = 1, faulty P3;
+   all protocol messages between honest parties handed over, deliver buffers drained, every honest party on the FIFO channel 7;
+   P0 has delivered slot (7,3,1) -- fetched through the out-of-order handler, answered by P1 and P2 while they sat on channel 8
+   (the l-retrieve handler compares s with deliver_s of the responder's current channel, not of the tag's channel) and by P3 --
+   and P1 can never deliver it.  Witness RbcBracha.cross_events, checked by vm_compute. *)
+Theorem C14_totality_channel_switch_refuted : ~ delivery_at_quiescence_statement 4 1 0 Hodd (fun _ _ => false) byz3.
+Proof. exact totality_with_switches_refuted. Qed.
+Print Assumptions C14_totality_channel_switch_refuted.
+
 (* TOTALITY, the part that is proved (`_partial`): once every r-ready has been handed over to its honest receivers
    (ready_quiescent: the first-time filter ready[l][tag] is set for every r-ready (l -> q) in the network), a digest accepted
    for a slot by ONE honest party (dbar: 2t+1 r-ready -- the precondition of every delivery on the Bracha path) is accepted
    by EVERY honest party: t+1 honest readys reach everybody, everybody amplifies, everybody collects n-t >= 2t+1.
-   The rest of the liveness clause (payload retrieval by r-request/r-answer, the deliver buffer, validity for honest senders)
-   is stated as RbcBracha.delivery_at_quiescence_statement and is NOT proved. *)
+   This part holds with channel switches and every fifo_skip; the full delivery clause is proved above for switch-free runs
+   and refuted above for runs with channel switches (finding F10). *)
 Theorem C14_totality_digest_partial : forall n t skip H toolong byz, 3 * t < n -> 0 <= t ->
   forall B, Z.of_nat (length B) <= t -> (forall l, byz l = true -> In l B) ->
   (forall tg x, toolong tg (H x) = false) ->
@@ -202,3 +256,15 @@ Example C14_nonvacuous_totality_premises :
   ready_quiescent 4 (fun _ => false) quiet_run /\ dbar (gp quiet_run 0) (0, 0, 1) = Some 85 /\
   honest 4 (fun _ => false) 3 = true.
 Proof. split; [exact quiet_run_quiescent|]. split; [exact quiet_run_dbar|reflexivity]. Qed.
+
+(* a fully quiescent run meeting every premise of the validity / totality theorems; all four parties have delivered *)
+Example C14_nonvacuous_quiescence :
+  forallb noswitch done_events = true /\ handed_over 4 (fun _ => false) done_run /\ buffers_drained 4 (fun _ => false) done_run.
+Proof. exact done_run_quiescent. Qed.
+Example C14_nonvacuous_quiescence_log :
+  glog done_run = [(0, (0, 0, 1), 42); (1, (0, 0, 1), 42); (2, (0, 0, 1), 42); (3, (0, 0, 1), 42)].
+Proof. exact done_run_log. Qed.
+
+Example C14_nonvacuous_cross_log :
+  glog cross_run = [(1, (8, 3, 1), 50); (2, (8, 3, 1), 50); (0, (7, 3, 1), 51); (0, (7, 3, 2), 52)].
+Proof. exact cross_run_log. Qed.
